@@ -429,7 +429,10 @@ class InProtocolBase(ProtocolMixin):
                 month = int(match.group('month'))
                 day = int(match.group('day'))
 
-                return date(year, month, day)
+                try:
+                    return date(year, month, day)
+                except ValueError as e:
+                    raise ValidationError(string, "%%r: %s" % (e,))
 
             raise ValidationError(string)
 
@@ -504,8 +507,11 @@ class InProtocolBase(ProtocolMixin):
         except ValueError as e:
             match = cls._offset_re.match(string)
             if match:
-                return date(int(match.group('year')),
+                try:
+                    return date(int(match.group('year')),
                             int(match.group('month')), int(match.group('day')))
+                except ValueError as e2:
+                    raise ValidationError(string, "%%r: %s" % (e2,))
             else:
                 raise ValidationError(string,
                                          "%%r: %s" % repr(e).replace("%", "%%"))
@@ -522,11 +528,14 @@ class InProtocolBase(ProtocolMixin):
         except ValueError as e:
             match = cls._offset_re.match(string)
             if match:
-                return date(int(match.group('year')),
+                try:
+                    return date(int(match.group('year')),
                             int(match.group('month')), int(match.group('day')))
+                except ValueError as e2:
+                    raise ValidationError(string, "%%r: %s" % (e2,))
             else:
                 # the message from ValueError is quite nice already
-                raise ValidationError(e.message, "%s")
+                raise ValidationError(str(e), "%s")
 
     def duration_from_unicode(self, cls, string):
         match = _duration_re.match(string)
